@@ -330,3 +330,10 @@ def accumulator_invariant(c):
     c.ensures("step-mean", c.eq(st._running_mean, (S1 + x) / (n + 1)))
     c.ensures("step-M2", c.eq(st._running_var, (S2 + x * x) - (S1 + x) * (S1 + x) / (n + 1)))
     c.ensures("step-n", c.eq(st._n, n + 1))
+
+
+# "editing metadata normalises the polarization to unit length" - for 2- and 3-component polarizations: the contract is C01's
+# to_vector contract; it is checked under this property as well (update_metadata stores what to_vector returns)
+from contracts.C01 import to_vector_c as _to_vector_contract          # noqa: E402
+contract("C16", "polarization_normalised", ["holopy.core.metadata:to_vector", "holopy.core.metadata:update_metadata"])(
+    _to_vector_contract.fn if hasattr(_to_vector_contract, 'fn') else _to_vector_contract)
